@@ -87,8 +87,9 @@ def gen_pat():
     facts["found_index_reruns_step_from_parent"] = bool(re.search(r"step\s*\(\s*executionContext\s*,\s*parentContext\s*,\s*startOpPos", hf))
     # doStepPredicate
     dp = sf.function_body(x, r"XPath::doStepPredicate\s*\([^)]*\)\s*const\s*\{", "XPath::doStepPredicate")
-    facts["flagged_goes_to_found_index"] = bool(re.search(r"eOP_PREDICATE_WITH_POSITION\s*==\s*nextStepType\s*\)\s*\{.*?handleFoundIndex", dp, re.S))
-    facts["number_goes_to_found_index"] = bool(re.search(r"XObject::eTypeNumber\s*==\s*pred->getType\s*\(\s*\)\s*\)\s*\{\s*score\s*=\s*handleFoundIndex", dp))
+    # (presence only: how the calls inside the loop are ordered or written is left to the correspondence)
+    facts["flagged_goes_to_found_index"] = ("eOP_PREDICATE_WITH_POSITION" in dp) and len(re.findall(r"\bhandleFoundIndex\s*\(", dp)) >= 2
+    facts["number_goes_to_found_index"] = ("eTypeNumber" in dp) and len(re.findall(r"\bhandleFoundIndex\s*\(", dp)) >= 2
     # NodeTester: name tests on the attribute axis
     nt = sf.function_body(x, r"XPath::NodeTester::NodeTester\s*\(\s*const\s+XPath\s*&[^)]*\)\s*:[^{]*\{", "NodeTester constructor")
     m = sf.need(r"case\s+XPathExpression::eNODENAME\s*:(.*?)case\s+|case\s+XPathExpression::eNODENAME\s*:(.*)$", nt, "NodeTester eNODENAME case")
